@@ -253,8 +253,10 @@ def grammar(lang):
         toks = ['Error: ', 'at dotty', '-']
         kind = z3.Plus(z3.Union(LOWER, UPPER, lit(' ')))
         body = z3.Plus(minus(ALL, lit('-')))
-        hdr = cat('-- [E', z3.Loop(DIGIT, 3, 3), '] ', kind, ' Error: ', P, ':', num, ':', num, ' ',
-                  z3.Plus(lit('-')), '\n')
+        # scala 3 prints errors with an id (-- [E007] Type Mismatch Error: f.scala:3:4 ---) and without one
+        # (-- Error: f.scala:9:6 ---, e.g. override errors)
+        ident = z3.Union(cat('[E', z3.Loop(DIGIT, 3, 3), '] ', kind, ' '), lit(''))
+        hdr = cat('-- ', ident, 'Error: ', P, ':', num, ':', num, ' ', z3.Plus(lit('-')), '\n')
         free = minus(ANYS, contains('Error: '), contains('at dotty'))
         return dict(err=z3.Concat(hdr, body), hdr=hdr,
                     nonerr=free, term='', tokens=toks,
@@ -435,7 +437,8 @@ def _unit(lang, kind, path, i):
         if kind in ('error', 'error2'):
             body = '%d |  val x: Int = "a"\n   |               ^^^\n   |               Found:    ("a" : String)\n' \
                    '   |               Required: Int\n' % (i + 1)
-            return '-- [E007] Type Mismatch Error: %s:%d:%d %s\n%s' % (path, i + 1, 15, '-' * 20, body), body
+            head = '-- [E007] Type Mismatch Error:' if kind == 'error' else '-- Error:'
+            return '%s %s:%d:%d %s\n%s' % (head, path, i + 1, 15, '-' * 20, body), body
         if kind == 'warning':
             return '-- Warning: %s:%d:4 %s\n%d |  def f = 1\n' % (path, i + 1, '-' * 12, i + 1), None
         return '1 warning found\n', None
